@@ -247,6 +247,27 @@ def gen_fragreject(rng, tier):
     return out
 
 
+def gen_keydetect(rng, tier):
+    """Key-frame detection of the convenience API by NAL unit type: after a key frame, one encode_video call per NAL
+    unit type of H.264 / H.265 (alone, and after a non-key slice); the recorded sync flag is what the model derives."""
+    out = []
+    F = {'bytes': True, 'timing': True, 'tree': False, 'raw': False}
+    for vc, ntypes, mk in (('h264', 32, lambda t: [0x60 | t, 0x88, 0x84]), ('h265', 64, lambda t: [t << 1, 0x01, 0xaf])):
+        for t in range(ntypes):
+            for shape in (0, 1):
+                cfg = base_cfg(vc, 'none')
+                cfg['facets'] = F
+                nal = mk(t)
+                other = [0x41, 0x9a, 0x22] if vc == 'h264' else [0x02, 0x01, 0xd0]
+                data = (SC4 + nal) if shape == 0 else (SC4 + other + SC3 + nal)
+                calls = [{'op': 'ev', 'data': video_frame(rng, vc, True, 4), 'ms': 33},
+                         {'op': 'ev', 'data': data, 'ms': 33},
+                         {'op': 'ev', 'data': video_frame(rng, vc, False, 3), 'ms': 33},
+                         {'op': 'fin', 'how': 'in_place_stats'}]
+                out.append({'cfg': cfg, 'calls': calls})
+    return out
+
+
 def gen_sink_histories(rng, tier, mode):
     out = []
     combos = [('h264', 'none', True, False), ('h264', 'none', False, False), ('h264', 'aac', True, False),
@@ -694,7 +715,7 @@ def gen_nallist(rng, tier):
     units = {
         'h264': {'SPSa': SPS_A, 'SPSb': SPS_B, 'PPSa': PPS_A, 'PPSb': PPS_B, 'IDR': [0x65, 0x88, 0x84], 'P': [0x41, 0x9a, 0x22],
                  'SEI': [0x06, 0x05, 0x11], 'AUD': [0x09, 0x10], 'E': []},
-        'h265': {'VPSa': HVPS, 'VPSb': [0x40, 0x01, 0x0c, 0x02, 0x33], 'SPSa': HSPS, 'SPSb': [0x42, 0x01, 0x02, 0x21, 0x60] + HSPS[5:] + [0x99],
+        'h265': {'VPSa': HVPS, 'VPSb': [0x40, 0x01, 0x0c, 0x02, 0x33], 'SPSa': HSPS, 'SPSb': [0x42, 0x01, 0x02, 0x02, 0x20] + HSPS[5:] + [0x99],      # Main 10 (profile_idc 2), main tier: an even profile_idc with the tier bit clear
                  'PPSa': HPPS, 'PPSb': [0x44, 0x01, 0xc1], 'IDR': [0x26, 0x01, 0xaf], 'P': [0x02, 0x01, 0xd0], 'SEI': [0x4e, 0x01, 0x05], 'E': []},
     }
     # truncated / minimal parameter sets (1..6 bytes, and around the HEVC level byte) as the stream's configuration
@@ -1220,6 +1241,8 @@ def generate(kind, n, seed, tier):
         return gen_fraginit(rng, tier)
     if kind == 'fragreject':
         return gen_fragreject(rng, tier)
+    if kind == 'keydetect':
+        return gen_keydetect(rng, tier)
     if kind == 'meta':
         return gen_meta(rng, tier)
     if kind == 'metalayout':
